@@ -28,7 +28,9 @@ From Wasp Require Import Corr.DState.
 Open Scope Z_scope.
 
 Record osess := OSess { oc : string; onode : nat; oidx : nat; osid : string; omp : string; ocid : string; oalive : bool;
-                        ofil : list (string * Z); owill : option publish; oka : Z; obadw : bool }.
+                        ofil : list (string * Z); owill : option publish; oka : Z; obadw : bool;
+                        otomb : bool;             (* its record was removed by a later CONNECT with its identifier *)
+                        oknown : list nat }.      (* nodes that have been told of its creation *)
 (* an outbound QoS>0 delivery seen on the wire, by its real identifier *)
 Record oexch := OExch { xnode : nat; xc : string; xmid : Z; xpkt : opkt; xrel : bool }.
 (* an inbound QoS 2 PUBLISH answered by PUBREC, waiting for PUBREL *)
@@ -36,23 +38,27 @@ Record oin2 := OIn2 { ic : string; imid : Z; itopic : string; ipayload : string;
 Record ost := OSt {
   t_sess : list osess; t_next : nat; t_ret : list (string * (string * bool));  (* prefixed topic -> payload, DUP flag it arrived with *)
   t_exch : list oexch; t_in2 : list oin2; t_down : list nat; t_fail : list (nat * nat);
-  t_dirty : list (nat * nat); t_nodes : nat; t_seen : seen_t; t_left : list (nat * nat) }.
-Definition oinit (k : nat) : ost := OSt [] 1 [] [] [] [] [] [] k [] [].
+  t_dirty : list (nat * nat); t_nodes : nat; t_seen : seen_t; t_left : list (nat * nat);
+  t_unsure : bool }.   (* an identifier resolved to two records at once: which one a CONNECT removes depends on map order *)
+Definition oinit (k : nat) : ost := OSt [] 1 [] [] [] [] [] [] k [] [] false.
 
-Definition set_sess st v := OSt v (t_next st) (t_ret st) (t_exch st) (t_in2 st) (t_down st) (t_fail st) (t_dirty st) (t_nodes st) (t_seen st) (t_left st).
-Definition set_next st v := OSt (t_sess st) v (t_ret st) (t_exch st) (t_in2 st) (t_down st) (t_fail st) (t_dirty st) (t_nodes st) (t_seen st) (t_left st).
-Definition set_ret st v := OSt (t_sess st) (t_next st) v (t_exch st) (t_in2 st) (t_down st) (t_fail st) (t_dirty st) (t_nodes st) (t_seen st) (t_left st).
-Definition set_exch st v := OSt (t_sess st) (t_next st) (t_ret st) v (t_in2 st) (t_down st) (t_fail st) (t_dirty st) (t_nodes st) (t_seen st) (t_left st).
-Definition set_in2 st v := OSt (t_sess st) (t_next st) (t_ret st) (t_exch st) v (t_down st) (t_fail st) (t_dirty st) (t_nodes st) (t_seen st) (t_left st).
-Definition set_down st v := OSt (t_sess st) (t_next st) (t_ret st) (t_exch st) (t_in2 st) v (t_fail st) (t_dirty st) (t_nodes st) (t_seen st) (t_left st).
-Definition set_failn st v := OSt (t_sess st) (t_next st) (t_ret st) (t_exch st) (t_in2 st) (t_down st) v (t_dirty st) (t_nodes st) (t_seen st) (t_left st).
-Definition set_dirty st v := OSt (t_sess st) (t_next st) (t_ret st) (t_exch st) (t_in2 st) (t_down st) (t_fail st) v (t_nodes st) (t_seen st) (t_left st).
-Definition set_seen st v := OSt (t_sess st) (t_next st) (t_ret st) (t_exch st) (t_in2 st) (t_down st) (t_fail st) (t_dirty st) (t_nodes st) v (t_left st).
-Definition set_left st v := OSt (t_sess st) (t_next st) (t_ret st) (t_exch st) (t_in2 st) (t_down st) (t_fail st) (t_dirty st) (t_nodes st) (t_seen st) v.
+Definition set_sess st v := OSt v (t_next st) (t_ret st) (t_exch st) (t_in2 st) (t_down st) (t_fail st) (t_dirty st) (t_nodes st) (t_seen st) (t_left st) (t_unsure st).
+Definition set_next st v := OSt (t_sess st) v (t_ret st) (t_exch st) (t_in2 st) (t_down st) (t_fail st) (t_dirty st) (t_nodes st) (t_seen st) (t_left st) (t_unsure st).
+Definition set_ret st v := OSt (t_sess st) (t_next st) v (t_exch st) (t_in2 st) (t_down st) (t_fail st) (t_dirty st) (t_nodes st) (t_seen st) (t_left st) (t_unsure st).
+Definition set_exch st v := OSt (t_sess st) (t_next st) (t_ret st) v (t_in2 st) (t_down st) (t_fail st) (t_dirty st) (t_nodes st) (t_seen st) (t_left st) (t_unsure st).
+Definition set_in2 st v := OSt (t_sess st) (t_next st) (t_ret st) (t_exch st) v (t_down st) (t_fail st) (t_dirty st) (t_nodes st) (t_seen st) (t_left st) (t_unsure st).
+Definition set_down st v := OSt (t_sess st) (t_next st) (t_ret st) (t_exch st) (t_in2 st) v (t_fail st) (t_dirty st) (t_nodes st) (t_seen st) (t_left st) (t_unsure st).
+Definition set_failn st v := OSt (t_sess st) (t_next st) (t_ret st) (t_exch st) (t_in2 st) (t_down st) v (t_dirty st) (t_nodes st) (t_seen st) (t_left st) (t_unsure st).
+Definition set_dirty st v := OSt (t_sess st) (t_next st) (t_ret st) (t_exch st) (t_in2 st) (t_down st) (t_fail st) v (t_nodes st) (t_seen st) (t_left st) (t_unsure st).
+Definition set_seen st v := OSt (t_sess st) (t_next st) (t_ret st) (t_exch st) (t_in2 st) (t_down st) (t_fail st) (t_dirty st) (t_nodes st) v (t_left st) (t_unsure st).
+Definition set_left st v := OSt (t_sess st) (t_next st) (t_ret st) (t_exch st) (t_in2 st) (t_down st) (t_fail st) (t_dirty st) (t_nodes st) (t_seen st) v (t_unsure st).
+Definition set_unsure st v := OSt (t_sess st) (t_next st) (t_ret st) (t_exch st) (t_in2 st) (t_down st) (t_fail st) (t_dirty st) (t_nodes st) (t_seen st) (t_left st) v.
 
-Definition s_alive x v := OSess (oc x) (onode x) (oidx x) (osid x) (omp x) (ocid x) v (ofil x) (owill x) (oka x) (obadw x).
-Definition s_fil x v := OSess (oc x) (onode x) (oidx x) (osid x) (omp x) (ocid x) (oalive x) v (owill x) (oka x) (obadw x).
-Definition s_badw x v := OSess (oc x) (onode x) (oidx x) (osid x) (omp x) (ocid x) (oalive x) (ofil x) (owill x) (oka x) v.
+Definition s_alive x v := OSess (oc x) (onode x) (oidx x) (osid x) (omp x) (ocid x) v (ofil x) (owill x) (oka x) (obadw x) (otomb x) (oknown x).
+Definition s_fil x v := OSess (oc x) (onode x) (oidx x) (osid x) (omp x) (ocid x) (oalive x) v (owill x) (oka x) (obadw x) (otomb x) (oknown x).
+Definition s_badw x v := OSess (oc x) (onode x) (oidx x) (osid x) (omp x) (ocid x) (oalive x) (ofil x) (owill x) (oka x) v (otomb x) (oknown x).
+Definition s_tomb x v := OSess (oc x) (onode x) (oidx x) (osid x) (omp x) (ocid x) (oalive x) (ofil x) (owill x) (oka x) (obadw x) v (oknown x).
+Definition s_known x v := OSess (oc x) (onode x) (oidx x) (osid x) (omp x) (ocid x) (oalive x) (ofil x) (owill x) (oka x) (obadw x) (otomb x) v.
 Definition upd_sess (st : ost) (f : osess -> osess) (c : string) : ost :=
   set_sess st (map (fun x => if String.eqb (oc x) c then f x else x) (t_sess st)).
 Definition find_sess (st : ost) (c : string) : option osess := find (fun x => String.eqb (oc x) c) (t_sess st).
@@ -202,10 +208,19 @@ Definition ostep (st : ost) (s : eop * list eobs) : ost * list nat :=
     | EConnect n c cid user pass ka will clk =>
       if String.eqb pass "bad" || String.eqb pass "bad-static" then
         (st, chk (has_pkt c (fun p => match p with OConnAck code => negb (code =? 0) | _ => false end) obs
-                  && negb (has_pkt c (fun p => match p with OConnAck 0 => true | _ => false end) obs) && quiet obs) 10)
+                  && negb (has_pkt c (fun p => match p with OConnAck 0 => true | _ => false end) obs) && quiet obs) 10
+             (* a connection without a session stays under the CONNECT allowance *)
+             ++ chk (has_closed c obs || existsb (fun ob => match ob with Deadline c' ms => String.eqb c' c && (0 <? ms) && (ms <=? 10000) | _ => false end) obs) 14)%list
       else
         let mp := if String.eqb user "" then "_default" else user in
-        let x := OSess c n (t_next st) (session_id (t_next st)) mp cid true [] will ka false in
+        let x := OSess c n (t_next st) (session_id (t_next st)) mp cid true [] will ka false false [n] in
+        (* the records this node resolves the identifier to: setup removes the one it finds *)
+        let cands := filter (fun z => oalive z && negb (otomb z) && String.eqb (omp z) mp && String.eqb (ocid z) cid && nat_mem n (oknown z)) (t_sess st) in
+        let st := match cands with
+                  | [] => st
+                  | [z] => upd_sess st (fun y => s_tomb y true) (oc z)
+                  | _ => set_unsure st true
+                  end in
         if has_pkt c (fun p => match p with OConnAck 0 => true | _ => false end) obs then
           (dirty_from (set_next (set_sess st (t_sess st ++ [x])%list) (S (t_next st))) n,
            chk (existsb (fun ob => match ob with Deadline c' ms => String.eqb c' c && (1500 * ka <=? ms) | _ => false end) obs
@@ -308,22 +323,47 @@ Definition ostep (st : ost) (s : eop * list eobs) : ost * list nat :=
       (set_in2 (set_exch st (filter (fun e => negb (Nat.eqb (xnode e) n) || live st (xc e)) (t_exch st)))
                (filter (fun e => match find_sess st (ic e) with Some x => negb (Nat.eqb (onode x) n) | None => true end) (t_in2 st)),
        chk (perm_eqb sp_eqb (resends obs) (map resend_of (filter (fun e => writable st (xc e)) mine))) 70 ++ chk (negb (has_store obs)) 71)%list
-    | EGossip a b | ESnapshot a b => (set_dirty st (filter (fun p => negb (pair_eqb p (a, b))) (t_dirty st)), chk (is_nil obs) 80)
-    | EPeerLeave o d clk => (dirty_from (set_left (set_down st (d :: t_down st)) ((o, d) :: t_left st)) o, [])
+    | EGossip a b =>
+      (* b receives a's own broadcasts: it now knows every session a hosts *)
+      (set_sess (set_dirty st (filter (fun p => negb (pair_eqb p (a, b))) (t_dirty st)))
+                (map (fun z => if Nat.eqb (onode z) a && negb (nat_mem b (oknown z)) then s_known z (b :: oknown z) else z) (t_sess st)),
+       chk (is_nil obs) 80)
+    | ESnapshot a b =>
+      (* b merges a's whole state: it knows what a knows (a full-state exchange does not stand for a's pending broadcasts to others) *)
+      (set_sess (set_dirty st (filter (fun p => negb (pair_eqb p (a, b))) (t_dirty st)))
+                (map (fun z => if nat_mem a (oknown z) && negb (nat_mem b (oknown z)) then s_known z (b :: oknown z) else z) (t_sess st)),
+       chk (is_nil obs) 80)
+    | EPeerLeave o d clk =>
+      let told := negb (existsb (fun p => pair_eqb p (d, o)) (t_dirty st)) in
+      let lost := filter (fun z => oalive z && negb (otomb z) && Nat.eqb (onode z) d) (t_sess st) in
+      let wills := flat_map (fun z => match owill z with Some w => [(z, w)] | None => [] end) lost in
+      let st1 := set_sess st (map (fun z => if oalive z && negb (otomb z) && Nat.eqb (onode z) d then s_fil (s_tomb z true) [] else z) (t_sess st)) in
+      let st2 := dirty_from (set_left (set_down st1 (d :: t_down st)) ((o, d) :: t_left st)) o in
+      if negb told || negb (knows_all st o) || failing st o then (set_unsure st2 true, [])
+      else
+        (st2,
+         (* the survivor publishes the will of every session the failed node hosted, under the session's mount point *)
+         chk (perm_eqb (fun a b : string * string => String.eqb (fst a) (fst b) && String.eqb (snd a) (snd b))
+                (flat_map (fun ob => match ob with Appended n t p _ _ => if Nat.eqb n o then [(t, p)] else [] | _ => [] end) obs)
+                (map (fun zw => (prefix_mp (omp (fst zw)) (p_topic (snd zw)), p_payload (snd zw))) wills)) 96
+         ++ chk (negb (forallb (fun zw => topic_ok (levels (p_topic (snd zw)))) wills) ||
+                 perm_eqb pub6_eqb (publishes obs)
+                   (flat_map (fun zw => flat_map (fun x => if oalive x && negb (obadw x) && String.eqb (omp x) (omp (fst zw)) && Nat.eqb (onode x) o then
+                                                             flat_map (fun fq => if mmatch (levels (fst fq)) (levels (p_topic (snd zw)))
+                                                                                 then [(oc x, p_topic (snd zw), p_payload (snd zw), snd fq, p_retain (snd zw), false)] else []) (ofil x)
+                                                           else []) (t_sess st)) wills)) 97)%list
     | EUnreachable ps => (set_down st ps, [])
     | EFailAppend n k => (set_failn st ((n, k) :: filter (fun p => negb (Nat.eqb (fst p) n)) (t_fail st)), [])
     | ECheck n =>
-      let gone := fun x => existsb (fun p => Nat.eqb (fst p) n && Nat.eqb (snd p) (onode x)) (t_left st) in
-      let here := filter (fun x => oalive x && negb (gone x)) (t_sess st) in
-      if negb (told_all st n) || existsb (fun p => negb (Nat.eqb (fst p) n)) (t_left st) then (st, [])
+      let here := filter (fun x => oalive x && negb (otomb x)) (t_sess st) in
+      if negb (told_all st n) || t_unsure st then (st, [])
       else
         (st, flat_map (fun ob => match ob with
            | Listed _ ss sb reg =>
-             (chk (Nat.ltb 1 (t_nodes st) && existsb (fun x => negb (is_nil (later_same st x))) (t_sess st)
-                   || perm_eqb String.eqb (map m_sid ss) (map osid (filter (fun x => is_nil (later_same st x)) here))) 90
+             (chk (perm_eqb String.eqb (map m_sid ss) (map osid here)) 90
               ++ chk (perm_eqb String.eqb reg (map osid (filter (fun x => oalive x && Nat.eqb (onode x) n) (t_sess st)))) 91
               ++ chk (perm_eqb ss_eqb (map (fun s => (s_sid s, s_pattern s)) sb)
-                               (flat_map (fun x => map (fun fq => (osid x, prefix_mp (omp x) (fst fq))) (ofil x)) here)) 92)%list
+                               (flat_map (fun x => if oalive x then map (fun fq => (osid x, prefix_mp (omp x) (fst fq))) (ofil x) else []) (t_sess st))) 92)%list
            | _ => [] end) obs)
     | ENoop c => (st, chk (quiet obs && negb (has_closed c obs)) 95)
     | EPanic => (st, [2%nat])
